@@ -70,14 +70,18 @@ contract(FB + '.__next__', props=['C17', 'C21', 'C27', 'C18'],
              ('consumes-at-least-one-frame', 'len(self.data) <= old(len(self.data)) - 9', ['C21']),
              ('only-from-a-complete-frame', 'old(%s)' % COMPLETE, ['C21'])],
     raises=[dict(exc='StopIteration', props=['C21']),
-            dict(exc='FrameTooLargeError', props=['C18', 'C27', 'C21'], when=COMPLETE + ' and frame_length_field(self.data) > self.max_frame_size',
+            dict(exc='FrameTooLargeError', props=['C18', 'C27', 'C21'], when=COMPLETE,
                  ensures=[('code', 'exc.error_code == FRAME_SIZE_ERROR', ['C18'])]),
             dict(exc='FrameDataMissingError', props=['C18', 'C21'], when=COMPLETE,
                  ensures=[('code', 'exc.error_code == FRAME_SIZE_ERROR', ['C18'])]),
             dict(exc='ProtocolError', props=['C17', 'C21', 'C18'], when=DECIDABLE,
                  ensures=[('code', 'exc.error_code == PROTOCOL_ERROR', ['C18'])]),
             dict(exc='hyperframe.exceptions.InvalidPaddingError', props=['C17'], when=COMPLETE)],
-    on_raise=[('backlog-bounded', 'implies(class_name(exc) == "StopIteration", len(self._headers_buffer) <= 64)', ['C27']),
+    on_raise=[# an oversize frame is refused before any of it is consumed (a later frame of the same call may be the
+              # oversize one when the first was a swallowed header-block frame: then data has shrunk)
+              ('frame-too-large-is-about-the-announced-length', 'implies(class_name(exc) == "FrameTooLargeError" and len(self.data) == old(len(self.data)), old(frame_length_field(self.data)) > self.max_frame_size)', ['C18', 'C27', 'C21']),
+              ('data-never-grows', 'len(self.data) <= old(len(self.data))', ['C21']),
+              ('backlog-bounded', 'implies(class_name(exc) == "StopIteration", len(self._headers_buffer) <= 64)', ['C27']),
               ('incomplete-frame-changes-nothing', 'implies(not old(%s) and class_name(exc) == "StopIteration", self.data == old(self.data) and len(self._headers_buffer) == old(len(self._headers_buffer)))' % COMPLETE, ['C21'])],
     unchanged=['self.max_frame_size'],
     canary='len(self.data) == old(len(self.data))')
